@@ -90,13 +90,18 @@ def gen_sim(seed, i, pool):
     perm = list(range(len(pool)))
     Rng(derive(seed, "c16-perm", i // len(pool))).shuffle(perm)
     name, text = pool[perm[i % len(pool)]]
-    derives = rng.weighted([(None, 50), (["Debug", "Clone", "PartialEq", "Eq"], 30), (["Debug", "Clone", "PartialEq", "Eq", "Hash", "Default"], 5), ([], 15)])
+    derives = rng.weighted([(None, 50), (["Debug", "Clone", "PartialEq", "Eq"], 30), (["Debug", "Clone", "PartialEq", "Eq", "Hash", "Default"], 5), ([], 12),
+                           # derive sets without Clone: whatever adds or assumes Clone somewhere shows
+                           (["Debug"], 8), (["Debug", "PartialEq"], 7)])
     ctx = "crate::some::Ctx" if rng.coin(150) else None
     prefix = rng.choice(["", "", "use x;", "use x;\n// p", "pub struct ImJustHereToConfuse;"])
     fmt = rng.coin(120)
     if i < len(pool):
         # first pass over the pool: settings every route can express, so that each grammar is compared across all routes
         derives, ctx, fmt = (None if rng.coin(600) else ["Debug", "Clone", "PartialEq", "Eq"]), None, False
+        import re as _re
+        if rng.coin(300) and not _re.search(rb"(?m)^[ \t]*@memoize", text):
+            derives = ["Debug", "PartialEq"]  # a derive set without Clone, for grammars that do not need it
     # other grammars compiled in the same process before / next to the one under study (directory mode, repeated library calls)
     companions = []
     inc = [t for n, t in pool if b">" in t and n != name]
